@@ -3,6 +3,7 @@ package main
 import (
 	"go/token"
 	"go/types"
+	"sort"
 	"strings"
 
 	"golang.org/x/tools/go/ssa"
@@ -1118,3 +1119,90 @@ func returnsField(fn *ssa.Function, field string) bool {
 	})
 	return n > 0 && all
 }
+
+// C03.index-own-count: a node's arrays (keys, values, children) are indexed / sliced with the node's OWN occupancy. An index or
+// slice bound that is computed from another node's n (curr.children[int(x.n)] while walking down from x) lands, as soon as the
+// two nodes hold different numbers of entries, on a slot that is not the intended one: a non-rightmost child, or a nil slot.
+var _ = late(func() {
+	for _, pid := range []string{"C03", "C01"} {
+		pid := pid
+		p := properties[pid]
+		p.Rules = append(p.Rules, &Rule{ID: pid + ".index-own-count", Floor: 20, Clause: "in package tree every index / slice bound applied to X.keys, X.values or X.children that mentions a node's occupancy n mentions X's own n (an index derived from another node's count addresses the wrong slot whenever the two nodes are filled differently)",
+			Run: func(c *Ctx, r *R) {
+				fns := c.funcsOfPkg(treeRel)
+				sort.Slice(fns, func(i, j int) bool { return c.nameOf(fns[i]) < c.nameOf(fns[j]) })
+				isNode := func(t types.Type) bool { return isNamedType(t, treeRel, "node") }
+				// the nodes whose n a value mentions
+				var nOwners func(v ssa.Value, d int, out map[string]bool)
+				nOwners = func(v ssa.Value, d int, out map[string]bool) {
+					if d > 8 || v == nil {
+						return
+					}
+					switch x := v.(type) {
+					case *ssa.BinOp:
+						nOwners(x.X, d+1, out)
+						nOwners(x.Y, d+1, out)
+					case *ssa.Convert:
+						nOwners(x.X, d+1, out)
+					case *ssa.ChangeType:
+						nOwners(x.X, d+1, out)
+					case *ssa.UnOp:
+						if x.Op == token.MUL {
+							if fa, ok := x.X.(*ssa.FieldAddr); ok && isNode(fa.X.Type()) && fieldName(fa.X.Type(), fa.Field) == "n" {
+								out[path(fa.X)] = true
+								return
+							}
+							if cell := cellOf(x.X); cell != nil {
+								for _, st := range storesTo(cell) {
+									nOwners(st.Val, d+1, out)
+								}
+							}
+							return
+						}
+						nOwners(x.X, d+1, out)
+					}
+				}
+				for _, fn := range fns {
+					name := c.nameOf(fn)
+					k := 0
+					instrs(fn, func(_ *ssa.BasicBlock, _ int, in ssa.Instruction) {
+						var base ssa.Value
+						var idx []ssa.Value
+						switch x := in.(type) {
+						case *ssa.IndexAddr:
+							base, idx = x.X, []ssa.Value{x.Index}
+						case *ssa.Slice:
+							base, idx = x.X, []ssa.Value{x.Low, x.High}
+						default:
+							return
+						}
+						fa, ok := base.(*ssa.FieldAddr)
+						if !ok || !isNode(fa.X.Type()) {
+							return
+						}
+						f := fieldName(fa.X.Type(), fa.Field)
+						if f != "keys" && f != "values" && f != "children" {
+							return
+						}
+						owners := map[string]bool{}
+						for _, iv := range idx {
+							nOwners(iv, 0, owners)
+						}
+						if len(owners) == 0 {
+							return
+						}
+						k++
+						self := path(fa.X)
+						good := true
+						other := ""
+						for o := range owners {
+							if o != self {
+								good, other = false, o
+							}
+						}
+						r.ok(good, name+"|"+f+"#"+itoa(k), in.Pos(), self+"."+f+" is indexed with the occupancy of "+other+", another node: whenever the two nodes hold different numbers of entries this addresses the wrong slot (a non-rightmost child, a nil child, a stale entry)")
+					})
+				}
+			}})
+	}
+})
